@@ -275,8 +275,21 @@ def spline_free(u):
             assert(l@[k]@ == 2real * (hs@[k - 1]@ + hs@[k]@) - hs@[k - 1]@ * mu@[k - 1]@);
             if k - 1 >= 1 { let lk = l@[k - 1]@; assert(0real <= mu@[k - 1]@ <= 0.5real); }
             lemma_thomas_pivot_positive(hs@[k - 1]@, hs@[k]@, mu@[k - 1]@, l@[k]@);
+            // spelled out (the obligation used to depend on how z3 happened to instantiate the relation): the new row ...
+            assert(l@[k]@ > 0real);
+            assert(mu@[k]@ == hs@[k]@ / l@[k]@ && 0real <= mu@[k]@ <= 0.5real);
+            assert(z@[k]@ == (alphas@[k]@ - hs@[k - 1]@ * z@[k - 1]@) / l@[k]@);
+            assert(l@[k]@ == 2real * (xs@[k + 1]@ - xs@[k - 1]@) - hs@[k - 1]@ * mu@[k - 1]@);
+            // ... and the rows that were already there
+            assert forall|j: int| 1 <= j < k implies #[trigger] l@[j]@ == 2real * (xs@[j + 1]@ - xs@[j - 1]@) - hs@[j - 1]@ * mu@[j - 1]@
+                && l@[j]@ > 0real && mu@[j]@ == hs@[j]@ / l@[j]@ && 0real <= mu@[j]@ <= 0.5real && z@[j]@ == (alphas@[j]@ - hs@[j - 1]@ * z@[j - 1]@) / l@[j]@ by {
+                assert(l@[j] == vx_l0[j] && mu@[j] == vx_mu0[j] && mu@[j - 1] == vx_mu0[j - 1] && z@[j] == vx_z0[j] && z@[j - 1] == vx_z0[j - 1]);
+                assert(vx_l0[j]@ == 2real * (xs@[j + 1]@ - xs@[j - 1]@) - hs@[j - 1]@ * vx_mu0[j - 1]@);
+            }
+            assert(sweep_rel(xs@, hs@, alphas@, l@, mu@, z@, k + 1));
         }
     }""")
+    f.hint("loop 3 begin", "let ghost vx_l0 = l@; let ghost vx_mu0 = mu@; let ghost vx_z0 = z@;")
     f.hint("before: let third =", """proof {
         assert forall|k: int| 0 <= k < hs@.len() implies hs@[k]@ >= 0real by { }
         if some_decrease(xs@) { let k = choose|k: int| 0 <= k < xs@.len() - 1 && #[trigger] xs@[k]@ > xs@[k + 1]@; assert(hs@[k]@ < 0real); }
@@ -345,8 +358,21 @@ pub open spec fn clamped_spline_ok(s: CubicSpline, xs: Seq<R>, ys: Seq<R>, f0: r
             assert(l@[k]@ == 2real * (hs@[k - 1]@ + hs@[k]@) - hs@[k - 1]@ * mu@[k - 1]@);
             if k - 1 >= 1 { let lk = l@[k - 1]@; assert(0real <= mu@[k - 1]@ <= 0.5real); }
             lemma_thomas_pivot_positive(hs@[k - 1]@, hs@[k]@, mu@[k - 1]@, l@[k]@);
+            // spelled out (the obligation used to depend on how z3 happened to instantiate the relation): the new row ...
+            assert(l@[k]@ > 0real);
+            assert(mu@[k]@ == hs@[k]@ / l@[k]@ && 0real <= mu@[k]@ <= 0.5real);
+            assert(z@[k]@ == (alphas@[k]@ - hs@[k - 1]@ * z@[k - 1]@) / l@[k]@);
+            assert(l@[k]@ == 2real * (xs@[k + 1]@ - xs@[k - 1]@) - hs@[k - 1]@ * mu@[k - 1]@);
+            // ... and the rows that were already there
+            assert forall|j: int| 1 <= j < k implies #[trigger] l@[j]@ == 2real * (xs@[j + 1]@ - xs@[j - 1]@) - hs@[j - 1]@ * mu@[j - 1]@
+                && l@[j]@ > 0real && mu@[j]@ == hs@[j]@ / l@[j]@ && 0real <= mu@[j]@ <= 0.5real && z@[j]@ == (alphas@[j]@ - hs@[j - 1]@ * z@[j - 1]@) / l@[j]@ by {
+                assert(l@[j] == vx_l0[j] && mu@[j] == vx_mu0[j] && mu@[j - 1] == vx_mu0[j - 1] && z@[j] == vx_z0[j] && z@[j - 1] == vx_z0[j - 1]);
+                assert(vx_l0[j]@ == 2real * (xs@[j + 1]@ - xs@[j - 1]@) - hs@[j - 1]@ * vx_mu0[j - 1]@);
+            }
+            assert(sweep_rel(xs@, hs@, alphas@, l@, mu@, z@, k + 1));
         }
     }""")
+    f.hint("loop 3 begin", "let ghost vx_l0 = l@; let ghost vx_mu0 = mu@; let ghost vx_z0 = z@;")
     LAST = (f"{SI} ==> l@[{m}]@ == hs@[{m} - 1]@ * (2real - mu@[{m} - 1]@) && z@[{m}]@ == (alphas@[{m}]@ - hs@[{m} - 1]@ * z@[{m} - 1]@) / l@[{m}]@ && l@[{m}]@ > 0real")
     AFTER_SW = ["alphas@.len() == xs@.len()", A0, f"{SI} ==> alpha_rel(ys@, hs@, alphas@, {m})", f"l@.len() == xs@.len() && mu@.len() == {m} && z@.len() == xs@.len()",
                 SW0, f"{SI} ==> sweep_rel(xs@, hs@, alphas@, l@, mu@, z@, {m})", LAST]
